@@ -1,0 +1,14 @@
+//go:build verif
+
+package wal
+
+import (
+	"github.com/alphadose/haxmap"
+
+	"github.com/projecteru2/core/wal/kv"
+)
+
+// NewHydroWithKV builds a Hydro over an injected kv.KV (simulation seam).
+func NewHydroWithKV(store kv.KV) *Hydro {
+	return &Hydro{Map: haxmap.New[string, EventHandler](), store: store}
+}
